@@ -433,9 +433,9 @@ pub fn run(cfg: &Cfg, rep: &mut Report) {
     rep.rule = "masks: case = one scene of 1..5 triangles × {Framebuf, colour-only} × depth_test {None,Less,Equal,Greater} × color_write × depth_write × {discarding, non-discarding shader} × {one, two render() calls on one Context}; culling: case = one triangle in both vertex orders × face_cull {None,Back,Front}; cull-stats: 2..6 triangles × {Back,Front}; non-trivial = produces fragments; distinct by scene hash".into();
     rep.assumptions.push("layers are solo renders of the same rasteriser (their correctness is C01/C04/C05's subject); pixels a triangle's own clip fan draws twice are excluded from the pixel model and fragment counts of such scenes are not compared".into());
     rep.assumptions.push("orientation oracle: back-facing on screen ⇔ det[x;y;w] > 0 (counter-clockwise in NDC) for an unmirrored viewport, reversed when exactly one viewport axis is mirrored; |det| < 1e-4·scale³ is skipped".into());
-    rep.run_stream(cfg, 0, "masks_and_stats", cfg.n(3_000, 150_000), |rng, i, rep| masks_case(rng, rep, i));
-    rep.run_stream(cfg, 1, "culling", cfg.n(40_000, 2_000_000), |rng, _, rep| cull_case(rng, rep));
-    rep.run_stream(cfg, 2, "culling_stats", cfg.n(20_000, 1_000_000), |rng, _, rep| cull_stats_case(rng, rep));
+    rep.run_stream(cfg, 0, "masks_and_stats", cfg.n(8_000, 600_000), |rng, i, rep| masks_case(rng, rep, i));
+    rep.run_stream(cfg, 1, "culling", cfg.n(100_000, 8_000_000), |rng, _, rep| cull_case(rng, rep));
+    rep.run_stream(cfg, 2, "culling_stats", cfg.n(40_000, 3_000_000), |rng, _, rep| cull_stats_case(rng, rep));
     rep.floor("configurations_rendered", 50_000);
     rep.floor("stats.fragment_counts_checked", 40_000);
     rep.floor("culling.visible_triangles", 10_000);
